@@ -11,21 +11,23 @@ open PySMT.AssertStack PySMT.SolverTrack PySMT.Gen.PendingPop
 
 /-- After every prefix of a legal sequence of API calls the solver runs without exception, its `assertions`
     property (when the class has one) returns exactly the live assertions, and a `solve()` issued at that moment
-    would be computed on exactly the live assertions. -/
+    would be computed on exactly the live assertions.  `Admits`: when the wrapper's assumption path does not protect
+    its `pending_pop` assignment (`assumeGuarded = false`), sequences in which asserting an assumption raises
+    (`assumingPushFails`) are excluded — for them the statement is false, see `assume_leak`. -/
 def TrackRefines (cfg : Config) : Prop :=
-  ∀ (ops : List Op), LegalOps ops → ∀ k : Nat,
+  ∀ (ops : List Op), LegalOps ops → Admits cfg ops → ∀ k : Nat,
     ∃ s st, runOps (ops.take k) = some s ∧ SolverTrack.run cfg (ops.take k) = .ok st ∧
       (cfg.tracking = true → observe cfg st = .ok (live s)) ∧
       (cfg.native = true ∨ cfg.tracking = true → wouldCheck cfg st = .ok (live s))
 
 theorem trackRefines_of_covers {cfg : Config} (hc : Covers cfg = true) : TrackRefines cfg := by
-  intro ops hl k
+  intro ops hl ha k
   have hk := legal_take hl k
   unfold LegalOps at hk
   cases hs : runOps (ops.take k) with
   | none => simp [hs] at hk
   | some s =>
-    obtain ⟨st, h1, i1⟩ := run_inv hc (ops.take k) s hs
+    obtain ⟨st, h1, i1⟩ := run_inv hc (ops.take k) (ha.take k) s hs
     exact ⟨s, st, rfl, h1, fun ht => observe_inv hc ht i1, fun hn => wouldCheck_inv hc hn i1⟩
 
 /-- a call that is a `check` for the specification is invisible to it -/
@@ -41,28 +43,178 @@ theorem cmd_of_isOneshot {o : Op} (h : o.isOneshot = true) : o.cmd = .check := b
   cases o <;> simp_all [Op.isOneshot, Op.cmd]
 
 /-- One-shot queries leave the assertions as they found them, *as observed through any later calls*: inserting
-    `is_sat f` / `is_valid f` / `is_unsat f` / `solve([f])` — answered normally, or ended by an exception of the native
+    `is_sat f` / `is_valid f` / `is_unsat f` / `solve([f])` (with `f` handed to the native check, or asserted in a
+    temporary level as the wrappers do for assumptions they cannot pass natively) — answered normally, or ended by an exception of the native
     check (unknown result) or of the assertion of `f` that the client catches — anywhere into a legal sequence changes
     neither the assertion list read at the end nor what a final `solve()` is computed on, and makes no later call fail. -/
 def OneshotRestores (cfg : Config) : Prop :=
   ∀ (before after : List Op) (o : Op), o.isOneshot = true → LegalOps (before ++ after) →
+    Admits cfg (before ++ o :: after) →
     ∃ st₁ st₂, SolverTrack.run cfg (before ++ o :: after) = .ok st₁ ∧
       SolverTrack.run cfg (before ++ after) = .ok st₂ ∧
       (cfg.tracking = true → observe cfg st₁ = observe cfg st₂) ∧
       (cfg.native = true ∨ cfg.tracking = true → wouldCheck cfg st₁ = wouldCheck cfg st₂)
 
 theorem oneshotRestores_of_covers {cfg : Config} (hc : Covers cfg = true) : OneshotRestores cfg := by
-  intro a b o ho hl
+  intro a b o ho hl ha
+  have ha' : Admits cfg (a ++ b) := by
+    cases ha with
+    | inl h => exact .inl h
+    | inr h =>
+      refine .inr fun x hx => h x ?_
+      simp only [List.mem_append, List.mem_cons] at hx ⊢
+      cases hx with
+      | inl h1 => exact .inl h1
+      | inr h1 => exact .inr (.inr h1)
   unfold LegalOps at hl
   cases hs : runOps (a ++ b) with
   | none => simp [hs] at hl
   | some s =>
     have hs' : runOps (a ++ o :: b) = some s := by rw [runOps_check a b o (cmd_of_isOneshot ho)]; exact hs
-    obtain ⟨st1, h1, i1⟩ := run_inv hc _ s hs'
-    obtain ⟨st2, h2, i2⟩ := run_inv hc _ s hs
+    obtain ⟨st1, h1, i1⟩ := run_inv hc _ ha s hs'
+    obtain ⟨st2, h2, i2⟩ := run_inv hc _ ha' s hs
     refine ⟨st1, st2, h1, h2, fun ht => ?_, fun hn => ?_⟩
     · rw [observe_inv hc ht i1, observe_inv hc ht i2]
     · rw [wouldCheck_inv hc hn i1, wouldCheck_inv hc hn i2]
+
+/-! ### the glue route `SmtLibScript.evaluate(solver)` -/
+
+theorem interp_runFrom : ∀ (cs : List Cmd) (s : Stack), cs.all Plain = true →
+    AssertStack.runFrom s ((interp cs).map Op.cmd) = AssertStack.runFrom s cs
+  | [], s, _ => rfl
+  | c :: cs, s, h => by
+    simp only [List.all_cons, Bool.and_eq_true] at h
+    have ih := fun s' => interp_runFrom cs s' h.2
+    cases c with
+    | assert f => simp [interp, interpCmd, AssertStack.runFrom, Op.cmd, legal, AssertStack.step] at ih ⊢; exact ih _
+    | push n => simp [interp, interpCmd, AssertStack.runFrom, Op.cmd, legal, AssertStack.step] at ih ⊢; exact ih _
+    | pop n =>
+      simp only [interp, List.filterMap_cons, interpCmd, List.map_cons, AssertStack.runFrom, Op.cmd] at ih ⊢
+      by_cases hl : legal s (.pop n) = true
+      · simp only [hl, if_true]; exact ih _
+      · simp [hl]
+    | reset => simp [interp, interpCmd, AssertStack.runFrom, Op.cmd, legal, AssertStack.step] at ih ⊢; exact ih _
+    | check => simp [interp, interpCmd, AssertStack.runFrom, Op.cmd, legal, AssertStack.step] at ih ⊢; exact ih _
+    | other => simp [interp, AssertStack.runFrom, legal, AssertStack.step] at ih ⊢; exact ih _
+    | objective g => simp [Plain] at h
+    | soft i f w => simp [Plain] at h
+
+theorem interp_not_leaky (cs : List Cmd) : ∀ o ∈ interp cs, leaky o = false := by
+  intro o ho
+  simp only [interp, List.mem_filterMap] at ho
+  obtain ⟨c, _, hc⟩ := ho
+  cases c <;> simp [interpCmd] at hc <;> subst hc <;> rfl
+
+/-- A legal plain script executed command by command on a solver whose placement covers the entry points: nothing
+    raises, and afterwards the solver's assertion list is exactly what `get_last_formula` reports for the script,
+    namely the live assertions; a `solve()` would run on exactly them. -/
+theorem evaluate_agrees {cfg : Config} (hc : Covers cfg = true) (cs : List Cmd) (hp : cs.all Plain = true)
+    (s : Stack) (hs : AssertStack.run cs = some s) :
+    ∃ st, SolverTrack.run cfg (interp cs) = .ok st ∧
+      (cfg.tracking = true → observe cfg st = .ok (live s) ∧ (Script.lastFormula cs).map Prod.fst = .ok (live s)) ∧
+      (cfg.native = true ∨ cfg.tracking = true → wouldCheck cfg st = .ok (live s)) := by
+  have hr : runOps (interp cs) = some s := by
+    unfold runOps AssertStack.run
+    rw [interp_runFrom cs init hp]; exact hs
+  obtain ⟨st, h1, i1⟩ := run_inv hc (interp cs) (.inr (interp_not_leaky cs)) s hr
+  refine ⟨st, h1, fun ht => ⟨observe_inv hc ht i1, ?_⟩, fun hn => wouldCheck_inv hc hn i1⟩
+  rw [lastFormula_refines cs s hs]
+  rfl
+
+/-! ### the unprotected assumption path (finding F44) -/
+
+/-- Z3Solver before the repair, MathSAT5Solver: every decorator in place, assumption path without `finally` -/
+def unguardedTracking : Config := ⟨true, true, true, true, true, true, true, true, true, true, false⟩
+
+/-- Without the guard the property fails: `push; assert 2; solve([f])` where asserting `f` raises; `pop 1` — the
+    solver still reports the assertion `2` that the `pop` should have removed (and `solve()` still runs on it). -/
+theorem assume_leak :
+    LegalOps [.push 1, .assert 2, .assumingPushFails 6, .pop 1] ∧
+    (SolverTrack.run unguardedTracking [.push 1, .assert 2, .assumingPushFails 6, .pop 1]).map
+      (fun st => (observe unguardedTracking st, wouldCheck unguardedTracking st)) = .ok (.ok [2], .ok [2]) ∧
+    (runOps [.push 1, .assert 2, .assumingPushFails 6, .pop 1]).map live = some [] :=
+  ⟨by decide, rfl, rfl⟩
+
+/-- the one-shot statement without the exclusion -/
+def OneshotRestoresFull (cfg : Config) : Prop :=
+  ∀ (before after : List Op) (o : Op), o.isOneshot = true → LegalOps (before ++ after) →
+    ∃ st₁ st₂, SolverTrack.run cfg (before ++ o :: after) = .ok st₁ ∧
+      SolverTrack.run cfg (before ++ after) = .ok st₂ ∧
+      (cfg.tracking = true → observe cfg st₁ = observe cfg st₂) ∧
+      (cfg.native = true ∨ cfg.tracking = true → wouldCheck cfg st₁ = wouldCheck cfg st₂)
+
+theorem full_of_guarded {cfg : Config} (hg : cfg.assumeGuarded = true) (h : OneshotRestores cfg) :
+    OneshotRestoresFull cfg :=
+  fun a b o ho hl => h a b o ho hl (.inl hg)
+
+theorem not_full_unguarded : ¬ OneshotRestoresFull unguardedTracking := by
+  intro h
+  obtain ⟨st1, st2, h1, h2, h3, _⟩ := h [.push 1, .assert 2] [.pop 1] (.assumingPushFails 6) rfl (by decide)
+  have e1 : SolverTrack.run unguardedTracking ([.push 1, .assert 2] ++ Op.assumingPushFails 6 :: [.pop 1]) =
+      .ok ⟨[[2], []], [2], [0], false, []⟩ := rfl
+  have e2 : SolverTrack.run unguardedTracking ([.push 1, .assert 2] ++ [.pop 1]) =
+      .ok ⟨[[]], [], [], false, []⟩ := rfl
+  rw [e1] at h1
+  rw [e2] at h2
+  cases h1
+  cases h2
+  have := h3 rfl
+  simp [observe, SolverTrack.read, enter, unguardedTracking, clear] at this
+
+/-! ### necessity of the placement condition -/
+
+def obsOk : Except Err (List Nat) → List Nat → Bool
+  | .ok l, l' => l == l'
+  | .error _, _ => false
+
+theorem obsOk_of_eq {x : Except Err (List Nat)} {l : List Nat} (h : x = .ok l) : obsOk x l = true := by
+  subst h; simp [obsOk]
+
+/-- the statement of `TrackRefines` at the end of one particular sequence, as a Boolean -/
+def goodAt (cfg : Config) (w : List Op) : Bool :=
+  match runOps w, SolverTrack.run cfg w with
+  | some s, .ok st =>
+    (!cfg.tracking || obsOk (observe cfg st) (live s)) &&
+    (!(cfg.native || cfg.tracking) || obsOk (wouldCheck cfg st) (live s))
+  | _, _ => false
+
+/-- fixed witness sequences: a one-shot query followed by one call of each kind -/
+def witnesses : List (List Op) :=
+  [[.oneshot .isSat 4], [.oneshot .isSat 4, .assert 2], [.oneshot .isSat 4, .push 1], [.oneshot .isSat 4, .reset],
+   [.oneshot .isSat 4, .solve], [.oneshot .isSat 4, .assert 2, .solve], [.oneshot .isSat 4, .push 1, .assert 2]]
+
+def refuted (cfg : Config) : Bool := witnesses.any fun w => !goodAt cfg w
+
+theorem witnesses_legal : ∀ w ∈ witnesses, LegalOps w ∧ ∀ o ∈ w, leaky o = false := by decide
+
+theorem not_trackRefines_of_refuted {cfg : Config} (h : refuted cfg = true) : ¬ TrackRefines cfg := by
+  intro ht
+  simp only [refuted, List.any_eq_true, Bool.not_eq_true'] at h
+  obtain ⟨w, hw, hbad⟩ := h
+  obtain ⟨hl, hnl⟩ := witnesses_legal w hw
+  obtain ⟨s, st, h1, h2, h3, h4⟩ := ht w hl (.inr hnl) w.length
+  rw [List.take_length] at h1 h2
+  have : goodAt cfg w = true := by
+    simp only [goodAt, h1, h2, Bool.and_eq_true, Bool.or_eq_true, Bool.not_eq_true']
+    constructor
+    · cases hc : cfg.tracking with
+      | false => exact .inl rfl
+      | true => exact .inr (obsOk_of_eq (h3 hc))
+    · cases hc : (cfg.native || cfg.tracking) with
+      | false => exact .inl rfl
+      | true =>
+        refine .inr (obsOk_of_eq (h4 ?_))
+        simpa [Bool.or_eq_true] using hc
+  rw [this] at hbad
+  exact Bool.noConfusion hbad
+
+/-- Every component of `Covers` other than the decorator on `pop` is necessary: a placement that supports `push`,
+    has something to observe (a native stack or an assertion list) and lacks one of them is refuted by one of the
+    fixed witness sequences.  (The decorator on `pop` alone is not: an undecorated `pop n` followed by the pending pop
+    removes the same `n + 1` levels as the pending pop followed by `pop n`.) -/
+theorem refuted_of_not_covers : ∀ (a b d e f g h j k : Bool),
+    (g || h) = true → Covers ⟨a, b, true, d, e, f, g, h, true, j, k⟩ = false →
+    ∀ p : Bool, refuted ⟨a, b, p, d, e, f, g, h, true, j, k⟩ = true := by decide +kernel
 
 /-! ### the regenerated table -/
 
